@@ -156,6 +156,7 @@ pub fn lanes_for(prop: &str, tier: &str, seed: u64) -> Vec<Scenario> {
             v.extend(gen_cli::lane_cli_fates(seed, if thorough { 1 } else { 4 }));
             v.extend(gen_cli::lane_pairing(seed));
             v.extend(gen_cli::lane_cli_report_bytes(seed));
+            v.extend(gen_cli::lane_closed_stderr(seed));
             v.extend(gen_cli::lane_random(Tier::Lib, seed, n_rand_lib, "C05"));
             v.extend(gen_cli::lane_random(Tier::Cli, seed, n_rand_cli, "C05"));
         }
@@ -194,6 +195,7 @@ pub fn lanes_for(prop: &str, tier: &str, seed: u64) -> Vec<Scenario> {
             v.extend(gen_cli::lane_skip(seed));
             v.extend(gen_cli::lane_skip_interplay(seed));
             v.extend(gen_cli::lane_summary(seed, if thorough { 1 } else { 3 }));
+            v.extend(gen_cli::lane_closed_stderr(seed));
             v.extend(gen_cli::lane_random(Tier::Lib, seed, n_rand_lib, "C15"));
             v.extend(gen_cli::lane_random(Tier::Cli, seed, n_rand_cli, "C15"));
         }
@@ -216,6 +218,7 @@ pub fn lanes_for(prop: &str, tier: &str, seed: u64) -> Vec<Scenario> {
             v.extend(gen_cli::lane_fs_faults(seed));
             v.extend(gen_cli::lane_summary(seed, if thorough { 1 } else { 2 }));
             v.extend(gen_cli::lane_renderers(seed));
+            v.extend(gen_cli::lane_closed_stderr(seed));
             v.extend(gen_cli::lane_cli_fates(seed, if thorough { 1 } else { 4 }));
             v.extend(gen_cli::lane_cli_timing(seed, if thorough { 2 } else { 8 }));
             v.extend(gen::lane_fates(Tier::Lib, seed));
